@@ -105,8 +105,14 @@ def run_cbmc(u, ctx):
         u.status, u.note = 'undecided', 'goto-cc failed: ' + (err or out)[-1500:]
         return
     cmd2 = ['goto-instrument', '--dfcc', u.entry, '--enforce-contract', u.function]
+    # a callee that is declared but never called is not in the goto model (goto-instrument rejects replacing it): keep only
+    # replacement targets that are actually called somewhere in the spec or the extracted pieces
+    texts = open(os.path.join(VERIF, u.spec)).read()
+    for fn in os.listdir(ctx.gen):
+        texts += open(os.path.join(ctx.gen, fn)).read()
     for r in u.replace:
-        cmd2 += ['--replace-call-with-contract', r]
+        if len(re.findall(r'(?<![\w])' + re.escape(r) + r'\s*\(', texts)) >= 2:
+            cmd2 += ['--replace-call-with-contract', r]
     if u.loop_contracts:
         cmd2 += ['--apply-loop-contracts']
     cmd2 += [gb, ib]
